@@ -191,6 +191,12 @@ func driveHistory(rc *RunCtx) {
 		} else {
 			nodes = w.AddECSigning(spids, ecKeysFor(spids, ecKeys), t, msg, 0, nil)
 		}
+		// the partial-key entropy stream (Parameters.SetPartialKeyRand) is the SAME in every session of a
+		// history, as with an application that derives it from a fixed seed for reproducible key generation:
+		// signing nonces must not come from it
+		for _, n := range nodes {
+			n.PKRand.main = NewDRBG("c20-partial-key-stream", n.PID.KeyInt().String())
+		}
 		w.AttachBasicInvariants()
 		cfg := SchedConfig{Strategy: "fifo"}
 		if useSched {
